@@ -93,6 +93,10 @@ class Ctx:
 
     def _assumed_ok(self, subj, _d=0):
         r = assumed_ok(self.assumptions, subj)
+        if r is None and self.assumptions and subj[0] == "call" and (subj[1] in SOMENESS_PRESERVING or subj[1] in OKNESS_PRESERVING) and subj[2] and _d < 4:
+            # helper(..).map(f).ok_or(e): Ok exactly when the helper's result is Some in this world
+            inner = subj[2][0][1] if subj[2][0][0] == "trybranch" else subj[2][0]
+            return self._assumed_ok(inner, _d)
         if r is None and subj[0] == "call" and self.assumptions and _d < 2:
             # an Option/Result computed by a small local function: its Some/Ok-ness in this world
             cb = _callee_body(self.prog, subj)
@@ -651,6 +655,9 @@ def success_exits(ctx):
                 cc.level = ctx.level + 1
                 if not success_exits(cc.settle()):
                     continue
+            if cb is None and t[0] == "call" and ctx._assumed_ok(t) is False:
+                # a std combinator as the tail expression (`opt.map(..).ok_or(err)`) whose value the world decides
+                continue
             if cb is None and t[0] == "call" and t[1].startswith("cw_storage_plus::") and t[1].endswith("::update") and t[2] and t[2][-1][0] == "closure":
                 # `ITEM.update(storage, closure)` as the tail expression: it succeeds only if the closure can
                 uc = update_closure_ctx(ctx.prog, t, ctx.assumptions)
